@@ -1,87 +1,102 @@
 (* C11 — outgoing sequence numbers increase by one per chunk, across renewals and senders; chunks of one message
    are never interleaved with chunks of another.
-   model : Model.ChannelSched (interleaving semantics: any number of senders, a renewer that renews again and again;
-           one atomic step per synchronisation boundary of uasc/secure_channel.go; wire = order of the Write calls)
+   model : Model.ChannelSched (interleaving semantics of the code AS IT IS NOW: any number of senders, a renewer that
+           renews again and again and may fail; one atomic step per synchronisation boundary of
+           uasc/secure_channel.go; wire = order of the Write calls)
    counters : Gen.ArithFromGo.go_nextSequenceNumber / go_nextRequestID (translated from the Go AST on every run)
    tie   : schedharness c11 forces schedules on the real channel through the verifhook scheduling points and the
-           captured wire must be the model's wire for the same schedule. *)
+           captured wire must be the model's wire for the same schedule.
+   Model.ChannelSchedBeforeFix is the same semantics for the code before the fixes dd66ad2 / 5bac950; it is kept only
+   for the *_before_fix theorems. *)
 From Coq Require Import ZArith List Bool Lia String.
 From Opcua Require Import Gen.ArithFromGo Gen.SendSide Model.ChannelSched Proofs.ChannelSchedProofs.
+From Opcua Require Model.ChannelSchedBeforeFix.
 Import ListNotations.
 Open Scope Z_scope.
+
+Module Old := Opcua.Model.ChannelSchedBeforeFix.
 
 Definition wire_ok (s : st) : Prop :=
   consecutive_rev (wire_rev s) = true /\ contiguous_rev (wire_rev s) = true.
 
-(* the full statement: every interleaving of any number of senders and renewals *)
-Definition C11_statement : Prop := forall seq0 req0 s, reachable seq0 req0 s -> wire_ok s.
+(* FULL: every interleaving of any number of senders (any message sizes) and any number of renewals, succeeding or
+   failing: every chunk carries the successor of the number of the chunk written before it, and a chunk that follows
+   a non-final chunk belongs to the same message *)
+Theorem C11_sequence_numbers_consecutive_and_messages_contiguous :
+  forall seq0 req0 s, reachable seq0 req0 s -> wire_ok s.
+Proof. intros; eapply wire_ok_full; eassumption. Qed.
 
-(* REFUTED (1): a sender that has passed the renewal gate and read the active instance, but has not yet been counted
-   in pendingReq, does not hold the renewal back: pendingReq.Wait() returns, the renewal copies the counter, sends its
-   OPN with number n+1 on the new instance, installs it; the sender then numbers its chunk n+1 on the OLD instance:
-   two chunks with the same number (and the second one secured with the superseded token). *)
-Definition window_schedule : list ev :=
-  [ESpawn 0; EGate 0; EActive 0;
-   ERenStart; ERenGate; ERenDrain; ERenLock; ERenCopy; ERenOpn; ERenInstall; ERenUnlock;
-   ECount 0; ELockI 0; EChunk 0]%nat.
-
-Theorem C11_refuted_renewal_window : exists s,
-  reachable 1 1 s /\ consecutive_rev (wire_rev s) = false /\
-  wire_obs s = [(2, 2, true, true); (2, 3, true, false)].
-Proof. eexists. split; [exists window_schedule; vm_compute; reflexivity|]. split; vm_compute; reflexivity. Qed.
-
-(* REFUTED (2): in the same window, a two-chunk message on the old instance and a two-chunk message on the new
-   instance are written under two different locks: their chunks interleave on the one connection *)
-Definition interleave_schedule : list ev :=
-  [ESpawn 1; ESpawn 1; EGate 0; EActive 0;
-   ERenStart; ERenGate; ERenDrain; ERenLock; ERenCopy; ERenOpn; ERenInstall; ERenUnlock;
-   EGate 1; EActive 1; ECount 0; ECount 1; ELockI 0; ELockI 1; EChunk 0; EChunk 1; EChunk 0; EChunk 1]%nat.
-
-Theorem C11_refuted_interleaved_messages : exists s,
-  reachable 1 1 s /\ contiguous_rev (wire_rev s) = false /\
-  wire_obs s = [(2, 2, true, true); (2, 3, false, false); (3, 4, false, false); (3, 3, true, false); (4, 4, true, false)].
-Proof. eexists. split; [exists interleave_schedule; vm_compute; reflexivity|]. split; vm_compute; reflexivity. Qed.
-
-(* REFUTED (3): a renewal that fails after its OPN was written (e.g. it times out) has consumed n+1 on an instance
-   that is thrown away; the next message on the old instance uses n+1 again *)
-Definition failed_renewal_schedule : list ev :=
-  [ERenStart; ERenGate; ERenDrain; ERenLock; ERenCopy; ERenOpn; ERenFail; ERenUnlock;
-   ESpawn 0; EGate 0; EActive 0; ECount 0; ELockI 0; EChunk 0]%nat.
-
-Theorem C11_refuted_failed_renewal : exists s,
-  reachable 1 1 s /\ consecutive_rev (wire_rev s) = false /\
-  wire_obs s = [(2, 2, true, true); (2, 3, true, false)].
-Proof. eexists. split; [exists failed_renewal_schedule; vm_compute; reflexivity|]. split; vm_compute; reflexivity. Qed.
-
-Theorem C11_refuted : ~ C11_statement.
-Proof.
-  intro H. destruct C11_refuted_renewal_window as (s & R & C & _).
-  destruct (H 1 1 s R) as [X _]. congruence.
-Qed.
-
-(* PARTIAL: on every run on which (a) no sender is between "passed the gate" and "counted" at the moment the
-   renewer finds pendingReq drained, and (b) no renewal fails after its OPN was written -- any number of senders,
-   any message sizes, any number of renewals, every interleaving -- numbers are consecutive and messages contiguous *)
-Theorem C11_partial_gate_respected : forall seq0 req0 s, reachableP renew_ok seq0 req0 s -> wire_ok s.
-Proof. intros; eapply wire_ok_partial; eassumption. Qed.
-
-(* in particular on a channel that never renews (the server's channel: response and publish senders; a client
-   channel between renewals): FULL for every interleaving of any number of senders *)
-Theorem C11_no_renewal : forall seq0 req0 s, reachableP no_renew seq0 req0 s -> wire_ok s.
-Proof. intros; eapply wire_ok_no_renewal; eassumption. Qed.
-
-(* the hypotheses are satisfiable by a real renewal under load: sender 0 (3 chunks) is counted before the renewal
-   starts, so the renewal waits for it; sender 1 is held at the gate and uses the new instance afterwards *)
-Example C11_partial_nonvacuous : exists s,
-  reachableP renew_ok 4294966270 7 s /\ renewals s = 1%nat /\
-  map (fun x => fst (fst (fst x))) (wire_obs s) = [4294966271; 4294966272; 1; 2; 3; 4].
+(* the statement is not vacuous: a renewal under load, with the counter wrapping.  Sender 0 (3 chunks) is counted
+   before the renewal locks the gate, so the renewal waits for it; sender 1 is held at the gate and uses the new
+   instance; a second renewal fails after its OPN and hands the counter back *)
+Example C11_nonvacuous : exists s,
+  reachable 4294966270 7 s /\ renewals s = 1%nat /\
+  map (fun x => fst (fst (fst x))) (wire_obs s) = [4294966271; 4294966272; 1; 2; 3; 4; 5; 6].
 Proof.
   eexists. split.
-  - exists [ESpawn 2; ESpawn 1; EGate 0; EActive 0; ECount 0; ERenStart; ERenGate; ELockI 0; EChunk 0; EChunk 0; EChunk 0;
+  - exists [ESpawn 2; ESpawn 1; EGate 0; ERenStart; ERenGate; EActive 0; EId 0; ELockI 0; EChunk 0; EChunk 0; EChunk 0;
             EUnlockI 0; EDone 0; ERenDrain; ERenLock; ERenCopy; ERenOpn; ERenInstall; ERenUnlock;
-            EGate 1; EActive 1; ECount 1; ELockI 1; EChunk 1; EChunk 1]%nat.
+            EGate 1; EActive 1; EId 1; ELockI 1; EChunk 1; EChunk 1; EUnlockI 1; EDone 1;
+            ERenStart; ERenGate; ERenDrain; ERenLock; ERenCopy; ERenOpn; ERenFail; ERenUnlock;
+            ESpawn 0; EGate 2; EActive 2; EId 2; ELockI 2; EChunk 2]%nat.
     vm_compute. reflexivity.
   - split; vm_compute; reflexivity.
+Qed.
+
+(* the renewal cannot overtake a counted sender: while any sender is between the gate and pendingReq.Done the
+   renewer's pendingReq.Wait() step is not enabled *)
+Theorem C11_renewal_waits_for_counted_senders : forall seq0 req0 s i,
+  reachable seq0 req0 s -> r s = RGate i -> (exists t pc, nth_error (ss s) t = Some pc /\ in_flight pc = true) ->
+  step s ERenDrain = None.
+Proof.
+  intros seq0 req0 s i R Rg (t & pc & H & F). pose proof (reachableP_inv _ _ _ _ R) as I.
+  cbn. rewrite Rg. destruct (Nat.eqb_spec (pending s) 0) as [P0|]; [|reflexivity].
+  rewrite (J3 _ I) in P0. rewrite (count_zero _ _ _ _ P0 H) in F. discriminate.
+Qed.
+
+(* ---- what the fixes repaired (model of the code before dd66ad2 / 5bac950) ---- *)
+
+Definition C11_statement_before_fix : Prop := forall seq0 req0 s, Old.reachable seq0 req0 s ->
+  Old.consecutive_rev (Old.wire_rev s) = true /\ Old.contiguous_rev (Old.wire_rev s) = true.
+
+(* (1) a sender that had passed the gate and read the active instance but was not yet counted in pendingReq did not
+   hold the renewal back: duplicate numbers *)
+Definition window_schedule : list Old.ev :=
+  [Old.ESpawn 0; Old.EGate 0; Old.EActive 0;
+   Old.ERenStart; Old.ERenGate; Old.ERenDrain; Old.ERenLock; Old.ERenCopy; Old.ERenOpn; Old.ERenInstall; Old.ERenUnlock;
+   Old.ECount 0; Old.ELockI 0; Old.EChunk 0]%nat.
+
+Theorem C11_refuted_before_fix_renewal_window : exists s,
+  Old.reachable 1 1 s /\ Old.consecutive_rev (Old.wire_rev s) = false /\
+  Old.wire_obs s = [(2, 2, true, true); (2, 3, true, false)].
+Proof. eexists. split; [exists window_schedule; vm_compute; reflexivity|]. split; vm_compute; reflexivity. Qed.
+
+(* (2) in the same window two multi-chunk messages were written under two different instance locks *)
+Definition interleave_schedule : list Old.ev :=
+  [Old.ESpawn 1; Old.ESpawn 1; Old.EGate 0; Old.EActive 0;
+   Old.ERenStart; Old.ERenGate; Old.ERenDrain; Old.ERenLock; Old.ERenCopy; Old.ERenOpn; Old.ERenInstall; Old.ERenUnlock;
+   Old.EGate 1; Old.EActive 1; Old.ECount 0; Old.ECount 1; Old.ELockI 0; Old.ELockI 1;
+   Old.EChunk 0; Old.EChunk 1; Old.EChunk 0; Old.EChunk 1]%nat.
+
+Theorem C11_refuted_before_fix_interleaved_messages : exists s,
+  Old.reachable 1 1 s /\ Old.contiguous_rev (Old.wire_rev s) = false /\
+  Old.wire_obs s = [(2, 2, true, true); (2, 3, false, false); (3, 4, false, false); (3, 3, true, false); (4, 4, true, false)].
+Proof. eexists. split; [exists interleave_schedule; vm_compute; reflexivity|]. split; vm_compute; reflexivity. Qed.
+
+(* (3) a renewal that failed after its OPN was written had used n+1 on an instance that was thrown away *)
+Definition failed_renewal_schedule : list Old.ev :=
+  [Old.ERenStart; Old.ERenGate; Old.ERenDrain; Old.ERenLock; Old.ERenCopy; Old.ERenOpn; Old.ERenFail; Old.ERenUnlock;
+   Old.ESpawn 0; Old.EGate 0; Old.EActive 0; Old.ECount 0; Old.ELockI 0; Old.EChunk 0]%nat.
+
+Theorem C11_refuted_before_fix_failed_renewal : exists s,
+  Old.reachable 1 1 s /\ Old.consecutive_rev (Old.wire_rev s) = false /\
+  Old.wire_obs s = [(2, 2, true, true); (2, 3, true, false)].
+Proof. eexists. split; [exists failed_renewal_schedule; vm_compute; reflexivity|]. split; vm_compute; reflexivity. Qed.
+
+Theorem C11_refuted_before_fix : ~ C11_statement_before_fix.
+Proof.
+  intro H. destruct C11_refuted_before_fix_renewal_window as (s & R & C & _).
+  destruct (H 1 1 s R) as [X _]. congruence.
 Qed.
 
 (* the counter step, in closed form: +1, wrapping to 1 above 2^32 - 1024, never 0 *)
@@ -89,23 +104,27 @@ Theorem C11_sequence_step : forall x, 0 <= x < 4294967295 ->
   go_nextSequenceNumber x = (if x <? 4294966272 then x + 1 else 1) /\ 1 <= go_nextSequenceNumber x <= 4294966272.
 Proof. exact next_seq_formula. Qed.
 
-(* the synchronisation skeleton the model transcribes, re-read from the source on every run *)
+(* the synchronisation skeleton the model transcribes, re-read from the source on every run: the request is counted
+   inside waitIfLockThen (under the gate's mutex) BEFORE the active instance is read *)
 Theorem C11_tie_source_shape :
   src_sync_renew = ["s.reqLocker.lock()"; "s.reqLocker.unlock()"; "s.pendingReq.Wait()"; "instance.Lock()"; "instance.Unlock()";
                     "s.open(context.Background(), instance, ua.SecurityTokenRequestTypeRenew)"]%string /\
-  src_sync_SendRequestWithTimeout = ["s.reqLocker.waitIfLock()"; "s.getActiveChannelInstance()";
+  src_sync_SendRequestWithTimeout = ["s.reqLocker.waitIfLockThen(func() { s.pendingReq.Add(1) })"; "s.pendingReq.Add(1)";
+     "s.getActiveChannelInstance()"; "s.pendingReq.Done()";
      "s.sendRequestWithTimeout(ctx, req, s.nextRequestID(), active, authToken, timeout, h)"; "s.nextRequestID()"]%string /\
-  firstn 3 src_sync_sendRequestWithTimeout = ["s.pendingReq.Add(1)"; "s.sendAsyncWithTimeout(ctx, req, reqID, instance, authToken, respRequired, timeout)"; "s.pendingReq.Done()"]%string /\
+  src_sync_waitIfLockThen = ["c.lockMu.Lock()"; "c.lockCnd.Wait()"; "f()"; "c.lockMu.Unlock()"]%string /\
+  firstn 2 src_sync_sendRequestWithTimeout = ["s.sendAsyncWithTimeout(ctx, req, reqID, instance, authToken, respRequired, timeout)"; "s.pendingReq.Done()"]%string /\
+  firstn 2 src_sync_open = ["s.nextRequestID()"; "s.pendingReq.Add(1)"]%string /\
   firstn 3 src_sync_sendAsyncWithTimeout = ["instance.Lock()"; "instance.Unlock()"; "instance.newRequestMessage(req, reqID, authToken, timeout)"]%string /\
   firstn 3 src_sync_sendResponseWithContext = ["s.getActiveChannelInstance()"; "instance.Lock()"; "instance.Unlock()"]%string /\
-  src_open_copies_sequence_number = true.
+  src_open_copies_sequence_number = true /\ src_open_hands_sequence_number_back = true.
 Proof. repeat split; reflexivity. Qed.
 
-Print Assumptions C11_refuted_renewal_window.
-Print Assumptions C11_refuted_interleaved_messages.
-Print Assumptions C11_refuted_failed_renewal.
-Print Assumptions C11_refuted.
-Print Assumptions C11_partial_gate_respected.
-Print Assumptions C11_no_renewal.
+Print Assumptions C11_sequence_numbers_consecutive_and_messages_contiguous.
+Print Assumptions C11_renewal_waits_for_counted_senders.
+Print Assumptions C11_refuted_before_fix_renewal_window.
+Print Assumptions C11_refuted_before_fix_interleaved_messages.
+Print Assumptions C11_refuted_before_fix_failed_renewal.
+Print Assumptions C11_refuted_before_fix.
 Print Assumptions C11_sequence_step.
 Print Assumptions C11_tie_source_shape.
